@@ -633,7 +633,11 @@ theorem foldl_applyNodeDel {L : List InNodeDel} {s : Inst} :
         List.mem_cons, forall_eq_or_imp]
       constructor
       · rintro ⟨⟨hx, hn⟩, hall⟩
-        exact ⟨hx, by rintro ⟨a, b⟩; rcases hn with h | h <;> [exact h a; exact h b], hall⟩
+        refine ⟨hx, ?_, hall⟩
+        rintro ⟨a, b⟩
+        rcases hn with h | h
+        · exact h a
+        · exact h b
       · rintro ⟨hx, hn, hall⟩
         refine ⟨⟨hx, ?_⟩, hall⟩
         by_cases a : x.room = some r.entry.room
@@ -757,5 +761,322 @@ theorem deleteEdges_sound {d : Defects} {s : Inst} {room : Nat} {recs : List InE
     rcases h5 t ht with h | ⟨r, hr, rfl⟩
     · exact absurd h hnew
     · exact ⟨r, (hacc r hr).1, rfl, (hacc r hr).2⟩
+
+/-! ### fields a stage does not touch; unique ids through a whole day -/
+
+theorem deleteEdges_fields (d : Defects) (s : Inst) (room : Nat) (recs : List InEdgeDel) :
+    (deleteEdges d s room recs).rooms = s.rooms ∧ (deleteEdges d s room recs).nodes = s.nodes ∧
+    (deleteEdges d s room recs).nodeLog = s.nodeLog := by
+  obtain ⟨h1, h2, h3, _, _⟩ := foldl_applyEdgeDel
+    (L := recs.filter fun r => edgeDelAccepted d s room r.entry) (s := s)
+  exact ⟨h1, h2, h3⟩
+
+theorem deleteNodes_fields (d : Defects) (s : Inst) (room : Nat) (recs : List InNodeDel) :
+    (deleteNodes d s room recs).rooms = s.rooms ∧ (deleteNodes d s room recs).edges = s.edges ∧
+    (deleteNodes d s room recs).edgeLog = s.edgeLog := by
+  obtain ⟨h1, h2, h3, _, _⟩ := foldl_applyNodeDel
+    (L := (dedupDel recs).filter fun r => nodeDelAccepted d s room r.entry) (s := s)
+  exact ⟨h1, h2, h3⟩
+
+theorem foldl_applyNodeDel_sublist {L : List InNodeDel} {s : Inst} :
+    (L.foldl (fun st r => applyNodeDel st r.entry) s).nodes.Sublist s.nodes := by
+  induction L generalizing s with
+  | nil => exact List.Sublist.refl _
+  | cons r rest ih =>
+    simp only [List.foldl_cons]
+    exact List.Sublist.trans ih (by simp only [applyNodeDel]; exact List.filter_sublist)
+
+theorem deleteNodes_nodup {d : Defects} {s : Inst} {room : Nat} {recs : List InNodeDel}
+    (hn : NodupIds s.nodes) : NodupIds (deleteNodes d s room recs).nodes :=
+  List.Nodup.sublist (List.Sublist.map _ foldl_applyNodeDel_sublist) hn
+
+theorem edgeStage_fields (d : Defects) (s : Inst) (room : Nat) (es : List InEdge) :
+    (edgeStage d s room es).1.rooms = s.rooms ∧ (edgeStage d s room es).1.nodes = s.nodes ∧
+    (edgeStage d s room es).1.nodeLog = s.nodeLog ∧ (edgeStage d s room es).1.edgeLog = s.edgeLog := by
+  simp [edgeStage]
+
+/-- the final state of a synchronised day is the state after one of its stages; a stage is only
+    reached when every record of the earlier stages carried a valid signature -/
+theorem syncDay_cases (d : Defects) (s : Inst) (room : Nat) (b : Batch) :
+    (syncDay d s room b).1 = s ∨
+    ((∀ r ∈ b.edgeDels, r.sigOk = true) ∧ (syncDay d s room b).1 = st1 d s room b) ∨
+    ((∀ r ∈ b.edgeDels, r.sigOk = true) ∧ (∀ r ∈ b.nodeDels, r.sigOk = true) ∧
+      (syncDay d s room b).1 = st2 d s room b) ∨
+    ((∀ r ∈ b.edgeDels, r.sigOk = true) ∧ (∀ r ∈ b.nodeDels, r.sigOk = true) ∧
+      (∀ n ∈ b.nodes, n.sigOk = true) ∧ (syncDay d s room b).1 = st3 d s room b) ∨
+    ((∀ r ∈ b.edgeDels, r.sigOk = true) ∧ (∀ r ∈ b.nodeDels, r.sigOk = true) ∧
+      (∀ n ∈ b.nodes, n.sigOk = true) ∧ (∀ e ∈ b.edges, e.sigOk = true) ∧
+      (syncDay d s room b).1 = (edgeStage d (st3 d s room b) room b.edges).1) := by
+  unfold syncDay
+  by_cases h1 : b.edgeDels.all (·.sigOk) = true
+  · have h1' : ∀ r ∈ b.edgeDels, r.sigOk = true := by simpa using h1
+    simp only [h1, Bool.not_true, Bool.false_eq_true, if_false]
+    by_cases h2 : b.nodeDels.all (·.sigOk) = true
+    · have h2' : ∀ r ∈ b.nodeDels, r.sigOk = true := by simpa using h2
+      simp only [h2, Bool.not_true, Bool.false_eq_true, if_false]
+      unfold syncNodesEdges
+      split
+      · exact Or.inr (Or.inr (Or.inl ⟨h1', h2', rfl⟩))
+      · by_cases h3 : b.nodes.all (·.sigOk) = true
+        · have h3' : ∀ n ∈ b.nodes, n.sigOk = true := by simpa using h3
+          simp only [h3, Bool.not_true, Bool.false_eq_true, if_false]
+          split
+          · exact Or.inr (Or.inr (Or.inr (Or.inl ⟨h1', h2', h3', rfl⟩)))
+          · by_cases h4 : b.edges.all (·.sigOk) = true
+            · have h4' : ∀ e ∈ b.edges, e.sigOk = true := by simpa using h4
+              simp only [h4, Bool.not_true, Bool.false_eq_true, if_false]
+              split
+              · exact Or.inr (Or.inr (Or.inr (Or.inl ⟨h1', h2', h3', rfl⟩)))
+              · exact Or.inr (Or.inr (Or.inr (Or.inr ⟨h1', h2', h3', h4', rfl⟩)))
+            · simp only [h4, Bool.not_false, if_true]
+              exact Or.inr (Or.inr (Or.inr (Or.inl ⟨h1', h2', h3', rfl⟩)))
+        · simp only [h3, Bool.not_false, if_true]
+          exact Or.inr (Or.inr (Or.inl ⟨h1', h2', rfl⟩))
+    · simp only [h2, Bool.not_false, if_true]
+      exact Or.inr (Or.inl ⟨h1', rfl⟩)
+  · simp only [h1, Bool.not_false, if_true]
+    exact Or.inl trivial
+
+theorem st1_fields (d : Defects) (s : Inst) (room : Nat) (b : Batch) :
+    (st1 d s room b).rooms = s.rooms ∧ (st1 d s room b).nodes = s.nodes ∧ (st1 d s room b).nodeLog = s.nodeLog :=
+  deleteEdges_fields d s room b.edgeDels
+
+theorem st2_fields (d : Defects) (s : Inst) (room : Nat) (b : Batch) :
+    (st2 d s room b).rooms = s.rooms ∧ (st2 d s room b).edges = (st1 d s room b).edges ∧
+    (st2 d s room b).edgeLog = (st1 d s room b).edgeLog := by
+  obtain ⟨h1, h2, h3⟩ := deleteNodes_fields d (st1 d s room b) room b.nodeDels
+  exact ⟨h1.trans (st1_fields d s room b).1, h2, h3⟩
+
+theorem st3_fields (d : Defects) (s : Inst) (room : Nat) (b : Batch) :
+    (st3 d s room b).rooms = s.rooms ∧ (st3 d s room b).edges = (st1 d s room b).edges ∧
+    (st3 d s room b).nodeLog = (st2 d s room b).nodeLog ∧ (st3 d s room b).edgeLog = (st1 d s room b).edgeLog := by
+  obtain ⟨h1, h2, h3, h4⟩ := nodeStage_rooms d (st2 d s room b) room b.nodes
+  obtain ⟨g1, g2, g3⟩ := st2_fields d s room b
+  exact ⟨h1.trans g1, h2.trans g2, h3, h4.trans g3⟩
+
+theorem st2_nodup {d : Defects} {s : Inst} {room : Nat} {b : Batch} (hn : NodupIds s.nodes) :
+    NodupIds (st2 d s room b).nodes := by
+  unfold st2
+  apply deleteNodes_nodup
+  rw [(st1_fields d s room b).2.1]; exact hn
+
+theorem st3_nodup {d : Defects} {s : Inst} {room : Nat} {b : Batch} (hn : NodupIds s.nodes) :
+    NodupIds (st3 d s room b).nodes := nodeStage_nodup (st2_nodup hn)
+
+/-- **ingestion never changes a room definition** -/
+theorem syncDay_rooms (d : Defects) (s : Inst) (room : Nat) (b : Batch) :
+    (syncDay d s room b).1.rooms = s.rooms := by
+  rcases syncDay_cases d s room b with h | ⟨_, h⟩ | ⟨_, _, h⟩ | ⟨_, _, _, h⟩ | ⟨_, _, _, _, h⟩ <;> rw [h]
+  · exact (st1_fields d s room b).1
+  · exact (st2_fields d s room b).1
+  · exact (st3_fields d s room b).1
+  · exact (edgeStage_fields d _ room b.edges).1.trans (st3_fields d s room b).1
+
+/-- **row ids stay unique** -/
+theorem syncDay_nodup {d : Defects} {s : Inst} {room : Nat} {b : Batch} (hn : NodupIds s.nodes) :
+    NodupIds (syncDay d s room b).1.nodes := by
+  rcases syncDay_cases d s room b with h | ⟨_, h⟩ | ⟨_, _, h⟩ | ⟨_, _, _, h⟩ | ⟨_, _, _, _, h⟩ <;> rw [h]
+  · exact hn
+  · rw [(st1_fields d s room b).2.1]; exact hn
+  · exact st2_nodup hn
+  · exact st3_nodup hn
+  · rw [(edgeStage_fields d _ room b.edges).2.1]; exact st3_nodup hn
+
+/-! ### batch independence of the reference stage -/
+
+theorem edgeKeyEq_iff (a b : EdgeRow) :
+    edgeKeyEq a b = true ↔ (a.src = b.src ∧ a.label = b.label ∧ a.dst = b.dst) := by
+  simp [edgeKeyEq, and_assoc]
+
+theorem find?_filter_of_imp {α : Type} {p q : α → Bool} {l : List α} (h : ∀ x, p x = true → q x = true) :
+    (l.filter q).find? p = l.find? p := by
+  induction l with
+  | nil => rfl
+  | cons x rest ih =>
+    simp only [List.filter_cons]
+    by_cases hq : q x = true
+    · simp only [hq, if_true, List.find?_cons]
+      cases hp : p x
+      · exact ih
+      · rfl
+    · have hp : p x = false := by
+        cases hp : p x
+        · rfl
+        · exact absurd (h x hp) hq
+      simp only [hq, Bool.false_eq_true, if_false, List.find?_cons, hp]
+      exact ih
+
+theorem find?_writeEdge_other {edges : List EdgeRow} {e0 e : EdgeRow} (hne : edgeKeyEq e0 e = false) :
+    (writeEdge edges e0).find? (edgeKeyEq e) = edges.find? (edgeKeyEq e) := by
+  have hne' : ¬(e0.src = e.src ∧ e0.label = e.label ∧ e0.dst = e.dst) := by
+    rw [← edgeKeyEq_iff, hne]; simp
+  unfold writeEdge
+  rw [List.find?_append]
+  have h1 : (edges.filter fun x => !edgeKeyEq e0 x).find? (edgeKeyEq e) = edges.find? (edgeKeyEq e) := by
+    apply find?_filter_of_imp
+    intro x hx
+    cases h0 : edgeKeyEq e0 x
+    · rfl
+    · exfalso
+      apply hne'
+      have a := (edgeKeyEq_iff e x).mp hx
+      have c := (edgeKeyEq_iff e0 x).mp h0
+      exact ⟨c.1.trans a.1.symm, c.2.1.trans a.2.1.symm, c.2.2.trans a.2.2.symm⟩
+  have h2 : [e0].find? (edgeKeyEq e) = none := by
+    have : edgeKeyEq e e0 = false := by
+      cases h : edgeKeyEq e e0
+      · rfl
+      · exfalso; apply hne'
+        have a := (edgeKeyEq_iff e e0).mp h
+        exact ⟨a.1.symm, a.2.1.symm, a.2.2.symm⟩
+    simp [List.find?, this]
+  rw [h1, h2]; simp
+
+theorem edgeAccepted_writeEdge_other {d : Defects} {s : Inst} {room : Nat} {edges : List EdgeRow}
+    {e0 : EdgeRow} {e : InEdge} (hne : edgeKeyEq e0 e.row = false) :
+    edgeAccepted d s room (writeEdge edges e0) e = edgeAccepted d s room edges e := by
+  unfold edgeAccepted edgeNeed
+  rw [find?_writeEdge_other hne]
+
+/-- **batch independence (references).** When no two received references share source, label and
+    target, the reference stage writes exactly those whose own verdict against the table *before* the
+    batch is positive. -/
+theorem addEdgesLoop_eq_verdicts {d : Defects} {s : Inst} {room : Nat} {es : List InEdge} {edges : List EdgeRow}
+    (hd : es.Pairwise fun a b => edgeKeyEq a.row b.row = false) :
+    (addEdgesLoop d s room es edges).1 =
+      (es.filter (edgeAccepted d s room edges)).foldl (fun t e => writeEdge t e.row) edges := by
+  induction es generalizing edges with
+  | nil => rfl
+  | cons e rest ih =>
+    rw [List.pairwise_cons] at hd
+    have hrest : ∀ t, rest.filter (edgeAccepted d s room (writeEdge t e.row)) =
+        rest.filter (edgeAccepted d s room t) := by
+      intro t
+      apply List.filter_congr
+      intro x hx
+      exact edgeAccepted_writeEdge_other (hd.1 x hx)
+    unfold addEdgesLoop
+    split
+    · next hacc =>
+      rw [ih hd.2, hrest]
+      simp [hacc]
+    · next hacc =>
+      simp only [ih hd.2, List.filter_cons, hacc]
+      rfl
+
+/-! ### from the switch-indexed statements to the plain ones -/
+
+theorem NodeOkD.none_ok {s : Inst} {room : Nat} {n : InNode} (h : NodeOkD Defects.none s room n) :
+    NodeOk s room n := by
+  refine ⟨h.sig, h.inRoom, h.known, ?_, h.small, h.right, h.sameEntity rfl, ?_⟩
+  · rcases h.conforms with c | ⟨c, _⟩
+    · exact c
+    · cases c
+  · intro l hl
+    obtain ⟨h1, h2⟩ := h.oldRoom l hl
+    cases hr : l.room with
+    | none => exact absurd hr (h1 rfl)
+    | some r' => exact ⟨r', rfl, h2 r' hr⟩
+
+theorem EdgeOkD.none_ok {s : Inst} {room : Nat} {prev : Option EdgeRow} {e : InEdge}
+    (h : EdgeOkD Defects.none s room prev e) : EdgeOk s room prev e :=
+  ⟨h.sig, h.known, h.source rfl, h.right⟩
+
+theorem NodeDelOkD.none_ok {s : Inst} {room : Nat} {r : InNodeDel} (h : NodeDelOkD Defects.none s room r) :
+    NodeDelOk s room r :=
+  ⟨h.sig, h.inRoom rfl, h.known, h.sameEntity rfl, h.right⟩
+
+theorem EdgeDelOkD.none_ok {s : Inst} {room : Nat} {r : InEdgeDel} (h : EdgeDelOkD Defects.none s room r) :
+    EdgeDelOk s room r :=
+  ⟨h.sig, h.inRoom rfl, h.known, h.source rfl, h.right⟩
+
+/-! ### guards that exclude the shapes the code does not check -/
+
+/-- the row does not rely on an absent JSON, and the local row it overwrites (if any) has the same
+    entity and is in a room -/
+def nodeGuard (s : Inst) (n : InNode) : Bool :=
+  (!n.jsonAbsent || n.conforms) &&
+  match localRow s.nodes n.row.id with
+  | some l => l.ent = n.row.ent && l.room.isSome
+  | none => true
+
+/-- the source row is a local row of the synchronised room and of the named entity; every
+    reference with the same source, label and target (stored or in the batch) has the same author -/
+def edgeGuard (s : Inst) (room : Nat) (others : List EdgeRow) (e : InEdge) : Bool :=
+  edgeSourceOk s room e.row && others.all fun x => !edgeKeyEq e.row x || x.key = e.row.key
+
+def nodeDelGuard (s : Inst) (room : Nat) (r : InNodeDel) : Bool :=
+  r.entry.room = room &&
+  match localRow s.nodes r.entry.id with
+  | some l => l.ent = r.entry.ent
+  | none => true
+
+def edgeDelGuard (s : Inst) (room : Nat) (r : InEdgeDel) : Bool :=
+  r.entry.room = room && edgeDelSourceOk s r.entry
+
+theorem NodeOkD.guarded {d : Defects} {s : Inst} {room : Nat} {n : InNode} (h : NodeOkD d s room n)
+    (g : nodeGuard s n = true) : NodeOk s room n := by
+  unfold nodeGuard at g
+  simp only [Bool.and_eq_true, Bool.or_eq_true, Bool.not_eq_true'] at g
+  refine ⟨h.sig, h.inRoom, h.known, ?_, h.small, h.right, ?_, ?_⟩
+  · rcases h.conforms with c | ⟨_, c⟩
+    · exact c
+    · rcases g.1 with g1 | g1
+      · rw [c] at g1; cases g1
+      · exact g1
+  · intro l hl
+    have := g.2; rw [hl] at this
+    simp only [Bool.and_eq_true, decide_eq_true_eq] at this
+    exact this.1
+  · intro l hl
+    have := g.2; rw [hl] at this
+    simp only [Bool.and_eq_true, decide_eq_true_eq] at this
+    cases hr : l.room with
+    | none => rw [hr] at this; exact absurd this.2 (by simp)
+    | some r' => exact ⟨r', rfl, (h.oldRoom l hl).2 r' hr⟩
+
+theorem NodeDelOkD.guarded {d : Defects} {s : Inst} {room : Nat} {r : InNodeDel} (h : NodeDelOkD d s room r)
+    (g : nodeDelGuard s room r = true) : NodeDelOk s room r := by
+  unfold nodeDelGuard at g
+  simp only [Bool.and_eq_true, decide_eq_true_eq] at g
+  refine ⟨h.sig, g.1, h.known, ?_, h.right⟩
+  intro l hl
+  have := g.2; rw [hl] at this
+  simpa using this
+
+theorem EdgeDelOkD.guarded {d : Defects} {s : Inst} {room : Nat} {r : InEdgeDel} (h : EdgeDelOkD d s room r)
+    (g : edgeDelGuard s room r = true) : EdgeDelOk s room r := by
+  unfold edgeDelGuard at g
+  simp only [Bool.and_eq_true, decide_eq_true_eq] at g
+  refine ⟨h.sig, g.1, h.known, ?_, h.right⟩
+  intro l hl
+  have := g.2; unfold edgeDelSourceOk at this; rw [hl] at this
+  simpa using this
+
+theorem EdgeOkD.guarded {d : Defects} {s : Inst} {room : Nat} {prev : Option EdgeRow} {e : InEdge}
+    {others : List EdgeRow} (h : EdgeOkD d s room prev e) (g : edgeGuard s room others e = true)
+    (hp : ∀ p, prev = some p → edgeKeyEq e.row p = true ∧ p ∈ others) : EdgeOk s room prev e := by
+  unfold edgeGuard at g
+  simp only [Bool.and_eq_true, List.all_eq_true, Bool.or_eq_true, Bool.not_eq_true', decide_eq_true_eq] at g
+  refine ⟨h.sig, h.known, ?_, ?_⟩
+  · have := g.1; unfold edgeSourceOk at this
+    split at this
+    · next l hl =>
+      simp only [Bool.and_eq_true, decide_eq_true_eq] at this
+      exact ⟨l, hl, this.1, this.2⟩
+    · cases this
+  · have hr := h.right
+    have hneed : needOn (prev.map (·.key)) e.row.key = RightType.mutateSelf := by
+      cases hprev : prev with
+      | none => rfl
+      | some p =>
+        obtain ⟨hk, hm⟩ := hp p hprev
+        rcases g.2 p hm with h1 | h1
+        · rw [hk] at h1; cases h1
+        · simp [needOn, needRight, h1]
+    rw [hneed]
+    split at hr
+    · exact hr
+    · rw [hneed] at hr; exact hr
 
 end Discret.Ingest
